@@ -26,9 +26,10 @@ import ICal.Driver.BodiesAlarmTimes
 import ICal.Driver.BodiesSerLines
 import ICal.Driver.BodiesSEFull
 import ICal.Driver.BodiesDDD
+import ICal.Driver.BodiesRecur
 open ICal.Driver
 
-def handlers : List (String → List String → Option String) := [handleText, handleFold, handleLine, handleTree, handleStartEnd, handleCodec, handleCDict, handleWalk, handleTz, handleAlarm, handleRecur, handleEncode, handleZoned, handleBodies, handleBodiesParser, handleBodiesLine, handleBodiesFold, handleBodiesText, handleBodiesAlarm, handleBodiesWalk, handleBodiesSer, handleBodiesCDict, handleBodiesSE, handleBodiesParse, handleBodiesAlarmTimes, handleBodiesSerLines, handleBodiesSEFull, handleBodiesDDD]
+def handlers : List (String → List String → Option String) := [handleText, handleFold, handleLine, handleTree, handleStartEnd, handleCodec, handleCDict, handleWalk, handleTz, handleAlarm, handleRecur, handleEncode, handleZoned, handleBodies, handleBodiesParser, handleBodiesLine, handleBodiesFold, handleBodiesText, handleBodiesAlarm, handleBodiesWalk, handleBodiesSer, handleBodiesCDict, handleBodiesSE, handleBodiesParse, handleBodiesAlarmTimes, handleBodiesSerLines, handleBodiesSEFull, handleBodiesDDD, handleBodiesRecur]
 
 def step (line : String) : String :=
   let l := line.dropRightWhile (fun c => c == (Char.ofNat 10) || c == (Char.ofNat 13))
